@@ -29,6 +29,17 @@ pub struct Profile {
 
 pub fn profiles() -> Vec<Profile> {
     vec![
+        // Tiny stream, whole alphabet incl. switching from ordered to unordered reads at any point:
+        // small enough to be searched deep (mode switches after partial reads, late duplicates).
+        Profile {
+            name: "mix3",
+            stream: 3,
+            max_len: 2,
+            empties: vec![0, 3],
+            big_alloc: true,
+            prefix: vec![],
+            ordered_reads: true,
+        },
         // The alphabet as specified: 10-byte stream, every (off, len<=3) x {exact, huge} allocation.
         Profile {
             name: "full10",
